@@ -3,6 +3,7 @@ package main
 import (
 	"fmt"
 	"os"
+	"reflect"
 	"runtime"
 	"strings"
 	"sync"
@@ -73,6 +74,7 @@ type Op struct {
 	LibErr    bool           // failing user functions return library error values
 	Inject    int
 	Arg       int
+	Arg2      int
 	RefFn     *ParsedFn
 	Expect    string
 	ExpectLog string
@@ -168,6 +170,7 @@ type Task struct {
 	nops    int
 	probes  map[string]int
 	faults  map[string]int
+	memo    map[uint64][2]string // (function, faults, document as it was) -> outcome of the first such call
 }
 
 // World is one run.
@@ -185,6 +188,7 @@ type World struct {
 	judgeOutcome     bool // compare outcome with the expectation
 	selfReentry      bool // user functions may re-enter the parsed function that is calling them
 	checkOld         bool // earlier results must not change
+	memoEqualDocs    bool // C05: a call must agree with every earlier call of the same function on an equal document
 }
 
 type boardSlot struct {
@@ -393,6 +397,95 @@ func (w *World) judge(t *Task, o *Op, expect, expectLog string) {
 	}
 }
 
+// judgeMemo: the same function, the same planned faults and an equal document give the same
+// outcome as the first time, whatever the caller did in between (a reference evaluated in the
+// same process shares every process-wide table with the judged call; this comparison does not).
+func (w *World) judgeMemo(t *Task, o *Op, pf *ParsedFn, before interface{}) {
+	key := fnv(fmt.Sprintf("%p|%v|%v|", pf, o.Faults, o.Panics) + canon(before))
+	if t.memo == nil {
+		t.memo = map[uint64][2]string{}
+	}
+	first, seen := t.memo[key]
+	if !seen {
+		t.memo[key] = [2]string{o.Got, o.GotLog}
+		return
+	}
+	t.probe("call-repeated-on-an-equal-document")
+	if first[0] != o.Got || first[1] != o.GotLog {
+		t.fail(w.prop+":outcome-differs-from-earlier-call-on-equal-document", pathKey(o),
+			fmt.Sprintf("%v\n  got      %s\n  earlier  %s", o, clip(o.Got, 400), clip(first[0], 400)))
+	}
+}
+
+// scribbleDeep overwrites the containers reachable from a result that are not part of any of
+// the caller's documents (values a user function or the library produced): they were returned
+// to the caller, who may do with them what it likes.
+func scribbleDeep(v interface{}, own map[uintptr]bool, seen map[uintptr]bool, depth int) int {
+	if depth > 6 {
+		return 0
+	}
+	n := 0
+	switch c := v.(type) {
+	case map[string]interface{}:
+		if c == nil {
+			return 0
+		}
+		id := reflect.ValueOf(c).Pointer()
+		if own[id] || seen[id] {
+			return 0
+		}
+		seen[id] = true
+		for _, k := range sortedKeys(c) {
+			n += scribbleDeep(c[k], own, seen, depth+1)
+			c[k] = "SCRIBBLED"
+		}
+		c["scribbled"] = true
+		n++
+	case []interface{}:
+		if len(c) == 0 {
+			return 0
+		}
+		id := reflect.ValueOf(c).Pointer()
+		if own[id] || seen[id] {
+			return 0
+		}
+		seen[id] = true
+		for i := range c {
+			n += scribbleDeep(c[i], own, seen, depth+1)
+			c[i] = "SCRIBBLED"
+		}
+		n++
+	}
+	return n
+}
+
+// allContainerIDs is containerIDs without a depth limit, plus every element slot of arrays
+// (a sub-slice of a document's array is the document's memory too).
+func allContainerIDs(docs []*Doc) map[uintptr]bool {
+	ids := map[uintptr]bool{}
+	var walk func(v interface{})
+	walk = func(v interface{}) {
+		switch c := v.(type) {
+		case map[string]interface{}:
+			if c != nil {
+				ids[reflect.ValueOf(c).Pointer()] = true
+			}
+			for _, e := range c {
+				walk(e)
+			}
+		case []interface{}:
+			for i := range c {
+				ids[reflect.ValueOf(c[i:]).Pointer()] = true
+				walk(c[i])
+			}
+		}
+	}
+	for _, d := range docs {
+		walk(d.Val)
+	}
+	return ids
+}
+
 // execOp runs one operation of a task (task context, ModeSim).
 func (w *World) execOp(t *Task, idx int) {
 	o := t.ops[idx]
@@ -438,6 +531,9 @@ func (w *World) execOp(t *Task, idx int) {
 			soloSelf = false
 			simrt.SetMode(simrt.ModeSim)
 			w.judge(t, o, exp, explog)
+			if w.memoEqualDocs && t.viol == nil {
+				w.judgeMemo(t, o, pf, before)
+			}
 		} else if o.HasExpect {
 			w.judge(t, o, o.Expect, o.ExpectLog)
 		}
@@ -526,7 +622,11 @@ func (w *World) execOp(t *Task, idx int) {
 	case opEditDoc:
 		if t.docs != nil {
 			d := t.docs[o.Doc%len(t.docs)]
-			editInPlace(d.Val, o.Arg)
+			if o.Arg%4 != 1 || !editRawInPlace(d.Val, o.Arg) {
+				editInPlace(d.Val, o.Arg)
+			} else {
+				t.probe("caller-overwrote-bytes-of-an-undecoded-part-in-place")
+			}
 			d.Snap = canon(d.Val) // the caller's own edit is the new baseline
 			t.probe("caller-edited-its-document-in-place")
 		}
@@ -534,6 +634,17 @@ func (w *World) execOp(t *Task, idx int) {
 	case opScribble:
 		if len(t.results) > 0 {
 			k := t.results[o.Arg%len(t.results)]
+			if o.Arg2 != 0 && t.docs != nil {
+				own := allContainerIDs(t.docs)
+				seen := map[uintptr]bool{}
+				n := 0
+				for i := range k.res {
+					n += scribbleDeep(k.res[i], own, seen, 0)
+				}
+				if n > 0 {
+					t.probe("caller-overwrote-containers-a-result-handed-to-it")
+				}
+			}
 			for i := range k.res {
 				k.res[i] = fmt.Sprintf("SCRIBBLE-%d-%d", t.id, i)
 			}
